@@ -34,7 +34,10 @@ import BpProofs.EqSound
           ones: each item is its own record `tag, length, Timestamp`, written with
           `serialize_empty=True`, so the epoch is `tag 00` and the `or b"\n\x00"`
           fallback of the encoder is never reached),
-        - wrappers (`Optional[scalar]`, singular or oneof member),
+        - wrappers (`Optional[scalar]`, singular or oneof member; REPEATED, `List[Optional[scalar]]`
+          with no `None` item, BpProofs/RtWraps.lean: each item is its own record `tag, length,
+          bytes(Wrapper(value=item))`, an item equal to the wrapped default is `tag 00`; the items
+          come back in order, `-0.0` as `+0.0`),
         - maps with integer / bool / string keys and scalar, message or Timestamp / Duration
           values (for the latter the epoch / the zero duration writes no value record and is
           read back as the default of the entry's value field, which is that same value),
@@ -69,8 +72,12 @@ import BpProofs.EqSound
       `dumpEntries`. Hence `roundtrip_total_partial`: the round trip with NO encoding
       hypothesis — the only premise left besides `MsgOk` is that the encoding is shorter than
       2^64 bytes (a length the decoder's 64-bit length prefixes can express).
-  MISSING (named, not proved): repeated wrapper fields (outside `MsgOk`). Covered by the
-    differential correspondence and the oracle of this check.
+  MISSING: nothing the plugin generates for proto3 — every field kind × cardinality is inside `MsgOk`.
+  OUTSIDE THE DOMAIN, by construction (`none_item_not_roundtrip` below): a `None` ITEM in the list of a
+    repeated wrapper field. The type hint `List[Optional[int]]` admits it, but `dump` writes it exactly like
+    the wrapped default (`tag 00`) and `load` hands back that default (`[None, 3]` comes back `[0, 3]`, unequal
+    under `==`); the wire format has no null element, and the reference implementation rejects `None` in a
+    repeated message field. `SlotOk.wraps` therefore requires every item to be a well-typed scalar.
 -/
 namespace Bp.C01
 open Bp Gen
@@ -220,7 +227,7 @@ theorem roundtrip_flat_partial (S : Schema) (c : Nat) (d : MsgD) (hd : S[c]? = s
     field numbers, the oneof invariant of C07, every slot well-typed for its field (`SlotOk`:
     flat as in `roundtrip_flat_partial`; unset / None / a well-typed message / a list of
     well-typed messages for a message-typed field; an in-range datetime / timedelta; a
-    wrapped scalar; a list of in-range datetimes / timedeltas; a dict with pairwise different
+    wrapped scalar; a list of wrapped scalars without `None` items; a list of in-range datetimes / timedeltas; a dict with pairwise different
     well-typed keys and well-typed scalar, message or datetime / timedelta values), unknown fields that are raw records the class does not know. -/
 theorem roundtrip_nested_partial (S : Schema) (c : Nat) (d : MsgD) (hd : S[c]? = some d)
     (sl : List Val) (ow : Bool) (unk : Bytes) (cur : List (Option Nat))
@@ -338,8 +345,44 @@ example : msgEq SQ mQ' (.msg 1 [.ph, .f64 0x7ff8000000000001, .ph,
     .f32 0, .dict [.str [97]] [.f32 0x80000000], .ph, .none] true [] []) = false := by decide
 example : msgEq SQ (fresh SQ 0) (fresh SQ 2) = false := by decide
 
+/-! non-vacuity for REPEATED wrapper fields. `SR`: `repeated Int32Value a = 1; repeated StringValue s = 2;
+    repeated FloatValue f = 3`. `mR = M(a=[5, 0, -1], s=["", "x"], f=[-0.0, 1.5])` is accepted by the checker of
+    the theorem's domain; the items equal to the wrapped default are the records `0a 00` / `12 00` / `1a 00`, the
+    list comes back item by item, `-0.0` as `+0.0`, and `mR == m'` both ways. (Bytes as the real code writes them.) -/
+def SR : Schema := [{ fields := [{ name := "a", num := 1, ty := .message, wraps := some .int32, repeated := true },
+                                  { name := "s", num := 2, ty := .message, wraps := some .string, repeated := true },
+                                  { name := "f", num := 3, ty := .message, wraps := some .float, repeated := true }] }]
+def mR : Val := .msg 0 [.list [.int 5, .int 0, .int (-1)], .list [.str [], .str [120]],
+                        .list [.f32 0x80000000, .f32 0x3fc00000]] false [] []
+def bsR : Bytes :=
+  [10, 2, 8, 5, 10, 0, 10, 11, 8, 255, 255, 255, 255, 255, 255, 255, 255, 255, 1, 18, 0, 18, 3, 10, 1, 120,
+   26, 0, 26, 5, 13, 0, 0, 192, 63]
+/-- what `parse SR 0 bsR` returns -/
+def mR' : Val := .msg 0 [.list [.int 5, .int 0, .int (-1)], .list [.str [], .str [120]],
+                         .list [.f32 0, .f32 0x3fc00000]] true [] []
+example : msgOkB SR mR = true := by decide
+example : dumpVal SR mR = .ok bsR := by decide
+example : parse SR 0 bsR = .ok mR' := by rfl
+example : dumpVal SR mR' = .ok bsR := by decide
+example : msgEq SR mR mR' = true ∧ msgEq SR mR' mR = true := by decide
+
+/-- `M(a=[None, 3])`: a `None` item in a repeated wrapper field -/
+def mN : Val := .msg 0 [.list [.none, .int 3], .ph, .ph] false [] []
+/-- what it decodes to: `M(a=[0, 3])` -/
+def mN' : Val := .msg 0 [.list [.int 0, .int 3], .ph, .ph] true [] []
+
+/-- **a `None` item of a repeated wrapper field does NOT round-trip** (which is why the domain excludes it:
+    `msgOkB` rejects the value): it is written as the record `0a 00`, exactly like `Int32Value(0)`, and read
+    back as `0`; `M(a=[None, 3]) != M(a=[0, 3])` in both orders. Replayed on the real code (harness/props/c01.py,
+    stage `none_items`). -/
+theorem none_item_not_roundtrip :
+    msgOkB SR mN = false ∧ dumpVal SR mN = .ok [10, 0, 10, 2, 8, 3] ∧ parse SR 0 [10, 0, 10, 2, 8, 3] = .ok mN'
+      ∧ msgEq SR mN mN' = false ∧ msgEq SR mN' mN = false ∧ dumpVal SR mN' = .ok [10, 0, 10, 2, 8, 3] :=
+  ⟨by decide, by decide, rfl, by decide, by decide, by decide⟩
+
 end Bp.C01
 
+#print axioms Bp.C01.none_item_not_roundtrip
 #print axioms Bp.C01.encodable
 #print axioms Bp.C01.roundtrip_total_partial
 #print axioms Bp.C01.roundtrip_equal
